@@ -1387,8 +1387,18 @@ impl<T> TLengthProtocol for TCompactInputProtocol<T> {
     }
     #[inline]
     fn field_end_len(&mut self) -> usize {
-        self.assert_no_pending_bool_read();
-        0
+        // The header of a bool field carries its value. While decoding, that value
+        // is taken by `read_bool`/`skip` and `bool_len` is never called, so the
+        // header that `field_begin_len` deferred is accounted for here.
+        match self.pending_read_bool_field_identifier.take() {
+            Some(pending) => {
+                let field_id = pending.id.expect("bool field should have a field id");
+                let mut ax = 0;
+                read_field_header_len!(self, ax, TCompactType::BooleanTrue, field_id);
+                ax
+            }
+            None => 0,
+        }
     }
     #[inline]
     fn field_stop_len(&mut self) -> usize {
